@@ -2,7 +2,7 @@
    combinations model and the independent-set model; truth-table / product
    decisions evaluated on the energies the implementation reported. *)
 From Coq Require Import List ZArith QArith Qcanon Bool Arith.
-From Dimod Require Import Base.Util Model.Poly Model.Comb Gen.Gen_Gates Gen.Gen_Combinations Gen.Gen_Graph Model.Gates Model.Knap Model.QKnap Gen.Gen_Knap Model.MultCircuit Model.Qap Gen.Gen_Qap Model.QapGen Model.Magic Gen.Gen_Magic Model.MagicGen Model.Sat Gen.Gen_Sat.
+From Dimod Require Import Base.Util Model.Poly Model.Comb Gen.Gen_Gates Gen.Gen_Combinations Gen.Gen_Graph Model.Gates Model.Knap Model.QKnap Gen.Gen_Knap Model.MultCircuit Gen.Gen_MultWiring Model.MultWiring Model.Qap Gen.Gen_Qap Model.QapGen Model.Magic Gen.Gen_Magic Model.MagicGen Model.Sat Gen.Gen_Sat.
 From Dimod Require Model.RandStruct.
 Import ListNotations.
 Open Scope Qc_scope.
@@ -119,6 +119,8 @@ Definition check (c : case) : bool :=
       let gs := circuit na nb in
       forallb (fun g => forallb (fun w => wmem w names) (inst_inputs g ++ inst_outputs g)) gs
       && poly_coeff_eqb (length names) (circuit_poly (index_of names) gs) (obs_poly bqm)
+      (* the wiring GENERATED from the source (Gen_MultWiring.v, Model/MultWiring.v) *)
+      && poly_coeff_eqb (length names) (circuit_poly (index_of names) (mw_circuit na nb)) (obs_poly bqm)
   | CComb n k s sn sd binobs rows =>
       let d := z2q (Zpos sd) in
       Qc_eqb (s * d) (z2q sn)
